@@ -386,6 +386,14 @@ def unparse(node: ast.AST) -> str:
         return "<?>"
 
 
+def ordk(node) -> tuple:
+    """position of a node for before/after comparisons inside one function (canonical functions are renumbered: see canon.number_nodes)"""
+    o = getattr(node, "_ord", None)
+    if o is not None:
+        return (0, o, 0)
+    return (1, getattr(node, "lineno", 0), getattr(node, "col_offset", 0))
+
+
 def norm(node: ast.AST) -> str:
     """normalised one-line statement/expression text (used as finding key; no line numbers)"""
     return " ".join(unparse(node).split())
